@@ -869,6 +869,30 @@ def tensor_attr(I, t, name):
     if name in t.meta.get("pyattrs", ()):
         return t.meta["pyattrs"][name]
     M = TENSOR_METHODS.get(name)
+    if M is None and name.endswith("_") and not name.startswith("_"):
+        # x.op_(...) : the in-place form of an element-wise method / function -- computes x.op(...) and writes the
+        # result into x (through views into the base)
+        base = name[:-1]
+        f = TENSOR_METHODS.get(base)
+        if f is None and base == "reciprocal":
+            def f(I2, tt):
+                idx, hyps = tt.val.generic_index("rc")
+                I2.ctx.safety("div", zreal(tt.val.at(idx)) != 0, hyps, "reciprocal of non-zero")
+                return Tensor(tlib.ew1(tt.val, lambda x: 1 / zreal(x), "real"))
+        if f is None and base == "zero":
+            f = lambda I2, tt: Tensor(tlib.ew1(tt.val, lambda x: core.conv(0, tt.val.dtype), tt.val.dtype))
+        if f is None:
+            g = I.repo.externals["torch"].table.get(base)
+            if g is not None and isinstance(g, B):
+                f = lambda I2, tt, *a, **k: g.fn(I2, tt, *a, **k)
+        if f is not None:
+            def M(I2, tt, *a, _f=f, **k):
+                r = _f(I2, tt, *a, **k)
+                rv = lift(r)
+                if [d.concrete() if d.concrete() is not None else str(d.size_term()) for d in rv.shape] != [d.concrete() if d.concrete() is not None else str(d.size_term()) for d in tt.val.shape]:
+                    raise Unsupported(f"in-place {name} changing the shape")
+                tt.val = rv
+                return tt
     if M is None:
         if name.startswith("_") and not name.startswith("__") and name not in _REAL_PRIVATE_TENSOR_ATTRS:
             raise IN.RaisedEx("AttributeError", f"'Tensor' object has no attribute '{name}'")
